@@ -125,6 +125,56 @@ thread_local! {
 
 static SEQ: AtomicU64 = AtomicU64::new(1);
 
+// ---------------------------------------------------------------------------------------------
+// progress heartbeat for the in-process watchdog (a stuck call is *inconclusive*, never a verdict;
+// the watchdog only makes the report faster and names the call)
+static PROGRESS: AtomicU64 = AtomicU64::new(0);
+static IN_CALL: AtomicUsize = AtomicUsize::new(0);
+static OPNAME_LEN: AtomicUsize = AtomicUsize::new(0);
+#[allow(clippy::declare_interior_mutable_const)]
+const ZERO_BYTE: std::sync::atomic::AtomicU8 = std::sync::atomic::AtomicU8::new(0);
+static OPNAME: [std::sync::atomic::AtomicU8; 96] = [ZERO_BYTE; 96];
+
+/// remember the name of the call about to be made (best effort, racy by design: diagnostics only)
+pub fn note_op(name: &str) {
+    let b = name.as_bytes();
+    let n = b.len().min(96);
+    for i in 0..n {
+        OPNAME[i].store(b[i], Ordering::Relaxed);
+    }
+    OPNAME_LEN.store(n, Ordering::Release);
+}
+
+/// Start a watchdog thread: if no window opens or closes for `secs` seconds while a call is in
+/// progress, print `WATCHDOG ...` and exit with status 3 (the driver reports it as inconclusive).
+pub fn start_watchdog(secs: u64) {
+    if cfg!(miri) {
+        return;
+    }
+    std::thread::spawn(move || {
+        let mut last = PROGRESS.load(Ordering::Relaxed);
+        let mut stale = 0u64;
+        loop {
+            std::thread::sleep(std::time::Duration::from_secs(5));
+            let now = PROGRESS.load(Ordering::Relaxed);
+            if now != last || IN_CALL.load(Ordering::Relaxed) == 0 {
+                last = now;
+                stale = 0;
+                continue;
+            }
+            stale += 5;
+            if stale >= secs {
+                let n = OPNAME_LEN.load(Ordering::Acquire);
+                let bytes: Vec<u8> = (0..n.min(96)).map(|i| OPNAME[i].load(Ordering::Relaxed)).collect();
+                let name = String::from_utf8_lossy(&bytes).to_string();
+                eprintln!("WATCHDOG: a call into bumpalo did not return within {} s of wall clock: `{}`", secs, name);
+                println!("{{\"watchdog\":true}}");
+                std::process::exit(3);
+            }
+        }
+    });
+}
+
 #[inline]
 pub fn is_candidate(size: usize, align: usize) -> bool {
     align >= 16 && size >= 48 && size % 16 == 0
@@ -556,6 +606,8 @@ unsafe impl GlobalAlloc for Hostile {
 
 /// Open an observation window on this thread; clears the event ring.
 pub fn op_begin() {
+    PROGRESS.fetch_add(1, Ordering::Relaxed);
+    IN_CALL.fetch_add(1, Ordering::Relaxed);
     TLS.with(|t| {
         t.n.set(0);
         t.win_refused.set(0);
@@ -566,6 +618,8 @@ pub fn op_begin() {
 
 /// Close the window and return the events recorded in it.
 pub fn op_end() -> Vec<Event> {
+    PROGRESS.fetch_add(1, Ordering::Relaxed);
+    IN_CALL.fetch_sub(1, Ordering::Relaxed);
     TLS.with(|t| {
         t.in_window.set(false);
         let n = t.n.get();
@@ -580,6 +634,8 @@ pub fn op_end() -> Vec<Event> {
 
 /// Close the window, returning only the number of candidate events (cheap path).
 pub fn op_end_into(v: &mut Vec<Event>) {
+    PROGRESS.fetch_add(1, Ordering::Relaxed);
+    IN_CALL.fetch_sub(1, Ordering::Relaxed);
     TLS.with(|t| {
         t.in_window.set(false);
         let n = t.n.get();
